@@ -316,6 +316,8 @@ class UnitDualQuaternion(DualQuaternion):
         
             self.real = S
             self.dual = 0.5 * D * S
+        else:
+            raise ValueError('expecting zero or two parameters, or an SE3')
 
     def SE3(self):
         """
